@@ -116,6 +116,19 @@ start :: fn do
     print((E.A ?a1) == E.C)
     print((E.B (?a1, 1)) == (E.B t))
     print(E.C == E.C)
+    print((l -> list.get(5)) == Maybe.None)
+    print(Maybe.None == (l -> list.get(5)))
+    print((l -> list.get(0)) == (Maybe.Just ?a1))
+    print((l -> list.get(0)) != Maybe.None)
+    print(((l -> list.get(5)), 1) == (Maybe.None, 1))
+    print([l -> list.get(5), l -> list.get(0)] == [Maybe.None, Maybe.Just ?a1])
+    print((l -> list.find(pu v: int -> bool do v > 5 end)) == Maybe.None)
+    none: Maybe(int) = Maybe.None
+    print(none == (l -> list.get(9)))
+    print((E.C, E.C) == (E.C, E.C))
+    ec := E.C
+    print([ec] == [E.C])
+    print(ec != E.C)
 end
 '''})
     # composite values whose components are the SAME variable (or variables compared / assigned to each other before): structure with sharing
